@@ -202,6 +202,11 @@ def run(ctx):
     gbase = len(sigs)
     sigs = sigs + gsigs
     cases = [gen_case(rng, sigs, i, fn=(gbase + rng.randrange(len(gsigs))) if i % 10 == 3 else None) for i in range(n)]
+    # every function of the pool once with exactly the argument list the property sentence asks for: rare signature shapes (no
+    # parameters and an invalid result list, ...) are not left to the luck of the draw (the full sweep of the seeded changes
+    # showed C14-4B missed on two seeds in a row)
+    for fn, sg in enumerate(sigs):
+        cases.append({"op": "F", "fn": fn, "args": right_args(rng, sg), "errmode": rng.choice(ERRMODES), "kind": "right"})
     for c in cases:
         if rng.random() < 0.2:
             c["ctxdone"] = True      # Run is handed a context that is already cancelled: same call, once, same error
